@@ -166,3 +166,11 @@ PROPS['C06']['units'] = [cli.AllPels, cli.ListOption, cli.Count]
 
 from contracts import meta as _meta
 _meta.apply(PROPS)
+
+# directory modes for directories of ANY size (per-file loops cut by invariants) - in addition to the <=2-file units
+PROPS['C08']['units'] = [cli.GetFileListN, cli.CountN, cli.AllPelsN, cli.ListN] + PROPS['C08']['units']
+PROPS['C09']['units'] = [cli.CountN, cli.AllPelsN, cli.ListN, cli.PlidN, cli.SrcN, cli.IdN, cli.BmcN] + PROPS['C09']['units']
+PROPS['C10']['units'] = [cli.PlidN, cli.SrcN, cli.IdN, cli.BmcN] + PROPS['C10']['units']
+PROPS['C11']['units'] = [cli.DeleteAllN, cli.DeleteOneN, cli.CountN, cli.AllPelsN, cli.ListN, cli.PlidN, cli.SrcN, cli.IdN, cli.BmcN] + PROPS['C11']['units']
+PROPS['C06']['units'] = [cli.AllPelsN, cli.ListN, cli.CountN] + PROPS['C06']['units']
+_meta.apply(PROPS)
